@@ -38,6 +38,33 @@ def snap_digest(snap):
     return h.hexdigest()
 
 
+_MAIN = {}
+
+
+def preload_main():
+    """Compile python_minifier/__main__.py once (called in the zygote)."""
+    import importlib.util
+    sp = importlib.util.find_spec('python_minifier.__main__')
+    _MAIN['spec'] = sp
+    _MAIN['code'] = sp.loader.get_code('python_minifier.__main__')
+
+
+def fresh_main_entry():
+    """-> callable that runs the command exactly as `python -m python_minifier` does: the code of __main__.py
+    executed in a NEW namespace named '__main__' (which calls main() under its __name__ guard).  Every execution
+    therefore starts with pristine module-level state of the command (parser objects, default arguments,
+    module globals), as a one-shot process would; only the library modules are shared between executions."""
+    if 'code' not in _MAIN:
+        preload_main()
+    sp, code = _MAIN['spec'], _MAIN['code']
+
+    def entry():
+        ns = {'__name__': '__main__', '__file__': sp.origin, '__package__': 'python_minifier', '__spec__': sp,
+              '__loader__': sp.loader, '__doc__': None, '__cached__': None, '__builtins__': __builtins__}
+        exec(code, ns)
+    return entry
+
+
 class Cmd(object):
     def __init__(self, c):
         self.argv = c['argv']
@@ -78,8 +105,7 @@ class WorldJob(object):
         self.probes = {}
         self.flag_discriminated = {}
         self.digest = hashlib.sha256()
-        import python_minifier.__main__ as pm_main
-        self.entry = pm_main.main
+        self.entry = fresh_main_entry()
 
     # ------------------------------------------------------------------------------- helpers
     def probe(self, name, n=1):
@@ -613,7 +639,6 @@ class WorldJob(object):
         elif isinstance(fs, list):
             plans = fs
         self.stats['fault_plans'] = len(plans)
-        rr = seeds.rng(spec.get('restart_seed', 0), 'restart')
         real_budget = spec.get('real_crash_checks', 0)
         crash_plans = [i for i, p in enumerate(plans) if 'crash' in p[0]['kind']]
         real_set = set()
@@ -622,7 +647,10 @@ class WorldJob(object):
             rc.shuffle(crash_plans)
             real_set = set(crash_plans[:real_budget])
         for i, plan in enumerate(plans):
-            do_restart = rr.random() < spec.get('restart_p', 0.0)
+            # per-plan stream: the decisions for one plan do not depend on which other plans are executed (replay runs one)
+            rp = seeds.rng(spec.get('restart_seed', 0), 'plan', seeds.digest(plan))
+            do_restart = rp.random() < spec.get('restart_p', 0.0)
+            do_restart_fault = rp.random() < spec.get('restart_fault_p', 0.0)
             desc = {'env': env0, 'faults': plan, 'restart': do_restart}
             if only is not None and only.get('faults') != plan:
                 continue
@@ -641,15 +669,26 @@ class WorldJob(object):
             if do_restart:
                 # restart on the surviving tree, no faults; judged as a fresh fault-free run from that state
                 self.stats['restarts'] += 1
-                torn = any(v['rule'] == 'R6' for v in self.violations if v['run'] is desc)
+                left1 = set(t1.get('leftover') or ())
                 pre3, rec3, post3 = self.run_once(env0, None, rebuild=False)
                 d3 = dict(desc, phase='restart')
-                nv = len(self.violations)
-                self.judge(pre3, rec3, post3, env0, d3, faulty=False, ignore=set(t1.get('leftover') or ()))
-                if torn:
-                    # the torn file is outside the model already (known finding); S-rules on it are not meaningful
-                    self.violations[nv:] = [v for v in self.violations[nv:] if v['property'] == 'C15' and v['rule'] in ('R1',)]
+                self.judge(pre3, rec3, post3, env0, d3, faulty=False, ignore=left1)
                 self.probe('restart_after_fault')
+                plans2 = self.enumerate_faults(rec3)
+                if do_restart_fault and plans2:
+                    # crash, restart, fault again, restart: the surviving state is reproduced (same plan on a rebuilt
+                    # tree), the restart then runs under one fault of its own event log, and a clean restart follows
+                    f2 = plans2[rp.randrange(len(plans2))]
+                    self.run_once(env0, plan)
+                    pre4, rec4, post4 = self.run_once(env0, [f2], rebuild=False)
+                    if rec4['fired']:
+                        d4 = dict(desc, phase='restart-fault', restart_fault=f2)
+                        t4 = self.judge(pre4, rec4, post4, env0, d4, faulty=True, ignore=left1)
+                        pre5, rec5, post5 = self.run_once(env0, None, rebuild=False)
+                        self.judge(pre5, rec5, post5, env0, dict(d4, phase='restart-2'), faulty=False,
+                                   ignore=left1 | set(t4.get('leftover') or ()))
+                        self.stats['second_generation_faults'] = self.stats.get('second_generation_faults', 0) + 1
+                        self.probe('restart_under_fault')
         world.rmtree(self.root)
 
     # ------------------------------------------------------------------------------- C14 twins
